@@ -25,8 +25,8 @@ NAMES = ['EQ:A', 'EQ:B', 'EQ:C']
 def configs(tier):
     n = 2 if tier == 'quick' else 3
     out = [dict(kind='units', name='universe_alpha_optimisers_N%d' % n, n=n, weight=10, chunk=40, chunk_s=30, entry_tz='UTC',
-                bound='%d assets: symbolic entry instants (or none), query instant, signal, scale, weights' % n,
-                twins=['member', 'nonmember', 'entry_equals_query'])]
+                bound='%d assets: symbolic entry instants (or none), two query instants in any order on the same universe and alpha-model objects, signal, scale, weights' % n,
+                twins=['member', 'nonmember', 'entry_equals_query', 'queried_later_first'])]
     out.append(dict(kind='units', name='universe_alpha_optimisers_N1', n=1, weight=5, chunk=40, chunk_s=30, entry_tz='UTC',
                     bound='a single asset (single-asset universe and single-key weight dictionaries)', twins=['member', 'nonmember']))
     for z in ('America/New_York', 'Asia/Tokyo'):
@@ -51,16 +51,16 @@ class Units(Harness):
 
     def inputs(self, mk):
         A = NAMES[:self.cfg['n']]
-        return dict(A=A, t=mk.time('t'), entry={a: mk.time('entry_' + a[-1], tz=self.cfg.get('entry_tz', 'UTC')) for a in A},
+        return dict(A=A, t=mk.time('t'), t0=mk.time('t0'), entry={a: mk.time('entry_' + a[-1], tz=self.cfg.get('entry_tz', 'UTC')) for a in A},
                     listed={a: mk.flag('listed_' + a[-1]) for a in A},
                     signal=mk.real('signal'), scale=mk.real('scale'), w={a: mk.real('w_' + a[-1]) for a in A})
 
     def assume(self, L, i):
-        return [L.ge(L.t(i['t']), 0)] + [L.ge(L.t(e), 0) for e in i['entry'].values()]
+        return [L.ge(L.t(i['t']), 0), L.ge(L.t(i['t0']), 0)] + [L.ge(L.t(e), 0) for e in i['entry'].values()]
 
     def friendly(self, L, i):
         from vf.engine.symtime import DAY
-        return [L.le(L.t(x), 30 * DAY) for x in [i['t']] + list(i['entry'].values())]
+        return [L.le(L.t(x), 30 * DAY) for x in [i['t'], i['t0']] + list(i['entry'].values())]
 
     def run(self, i):
         from qstrader.asset.universe.dynamic import DynamicUniverse
@@ -71,14 +71,19 @@ class Units(Harness):
         A = i['A']
         listed = {a: bool(i['listed'][a]) for a in A}
         uni = DynamicUniverse({a: (i['entry'][a] if listed[a] else None) for a in reversed(A)})     # mapping order != sorted order
+        # the same universe / alpha-model objects first answer for another instant t0 (earlier OR later than t: a universe
+        # shared by two sessions, or queried out of time order) - the answer at t must not depend on that
+        am = SingleSignalAlphaModel(uni, signal=i['signal'])
+        members0 = uni.get_assets(i['t0'])
+        alpha0 = am(i['t0'])
         members = uni.get_assets(i['t'])
-        alpha = SingleSignalAlphaModel(uni, signal=i['signal'])(i['t'])
+        alpha = am(i['t'])
         static = StaticUniverse(list(reversed(A))).get_assets(i['t'])
         static_alpha = SingleSignalAlphaModel(StaticUniverse(list(A)), signal=i['signal'])(i['t'])
         wd = dict(i['w'])
         fixed = FixedWeightPortfolioOptimiser()(i['t'], initial_weights=wd)
         equal = EqualWeightPortfolioOptimiser(scale=i['scale'])(i['t'], initial_weights=dict(i['w']))
-        return dict(listed=listed, members=list(members), alpha=dict(alpha), static=list(static), static_alpha=dict(static_alpha),
+        return dict(listed=listed, members0=list(members0), alpha0=dict(alpha0), members=list(members), alpha=dict(alpha), static=list(static), static_alpha=dict(static_alpha),
                     fixed=dict(fixed), fixed_is_input=(fixed == wd) if not core_sym(wd) else None, equal=dict(equal))
 
     def oracle(self, L, i, out):
@@ -92,6 +97,9 @@ class Units(Harness):
             member = L.tle(i['entry'][a], i['t']) if o['listed'][a] else L.false
             obl.append(('membership_iff_entry_not_later_than_t[%s]' % a, L.Not(L.Iff(L.bool(a in o['members']), member))))
             obl.append(('alpha_weight_iff_member[%s]' % a, L.Not(L.Iff(L.bool(a in o['alpha']), member))))
+            member0 = L.tle(i['entry'][a], i['t0']) if o['listed'][a] else L.false
+            obl.append(('membership_at_earlier_query_of_same_object[%s]' % a, L.Not(L.Iff(L.bool(a in o['members0']), member0))))
+            obl.append(('alpha_weight_iff_member_at_earlier_query[%s]' % a, L.Not(L.Iff(L.bool(a in o['alpha0']), member0))))
             if a in o['alpha']:
                 obl.append(('alpha_weight_is_the_signal[%s]' % a, L.ne(o['alpha'][a], i['signal'])))
         # (the order of the members is not part of the statement for a dynamic universe: compared as sets)
@@ -120,7 +128,8 @@ class Units(Harness):
         o = out.value
         a = i['A'][0]
         return [('member', L.bool(a in o['members'])), ('nonmember', L.bool(a not in o['members'])),
-                ('entry_equals_query', L.And(L.bool(a in o['members']), L.teq(i['entry'][a], i['t'])))]
+                ('entry_equals_query', L.And(L.bool(a in o['members']), L.teq(i['entry'][a], i['t']))),
+                ('queried_later_first', L.And(L.bool(a in o['members0']), L.bool(a not in o['members'])))]
 
     def observe(self, i, out):
         if out.kind != 'ok':
